@@ -248,6 +248,16 @@ class ValueGen:
         # some "lossless" objects carry y-diaeresis: it round-trips wherever the string is neither sanitised nor padded, and
         # only the theorem's domain predicate (asked of the driver per pair) knows where that is
         self.with_yuml = lossless and rng.random() < 0.3
+        # a fifth of the objects draw every string from one base text (holding y-diaeresis unless the object must be
+        # lossless without it), so the same text recurs in several fields of one object — sanitised and unsanitised
+        # positions, fixed and free lengths (a per-text cache that one position poisons for another shows only then)
+        self.shared_base = None
+        if rng.random() < 0.2:
+            a = (ALPHA_LOSSLESS + (["\xff"] if self.with_yuml else [])) if lossless else ALPHA_FULL
+            base = [rng.choice(a) for _ in range(rng.choice([1, 2, 3, 5]))]
+            if (not lossless) or self.with_yuml:
+                base[rng.randrange(len(base))] = "\xff"
+            self.shared_base = "".join(base)
 
     # ---- building real objects ----
     def build(self, v):
@@ -267,9 +277,25 @@ class ValueGen:
         r = self.rng
         if base == "byte" and self.lossless:
             m = 254   # a raw 0xFF byte is a chunk break for every chunked reader downstream: outside the round-trip domain
+        h = self.hint(m)
+        if h is not None:
+            return h
         return r.choice([0, 1, m - 1, m, r.randrange(m + 1), r.randrange(min(m, 300) + 1), r.randrange(min(m, 10) + 1)])
 
+    def hint(self, hi, lo=0, cap=None):
+        """a number next to one of the integers on which the emitted text and the model's instruction list differ
+        (gencheck.ir_tie), when the specification has such a difference"""
+        hints = getattr(self.info, "hints", None)
+        if not hints or self.rng.random() >= 0.35:
+            return None
+        v = self.rng.choice(hints) + self.rng.choice([-1, 0, 0, 1])
+        if cap is not None and v > cap:
+            return None
+        return max(lo, min(hi, v))
+
     def string(self, n):
+        if self.shared_base is not None:
+            return (self.shared_base * (n // len(self.shared_base) + 1))[:n]
         a = (ALPHA_LOSSLESS + (["\xff", "\xff"] if self.with_yuml else [])) if self.lossless else ALPHA_FULL
         return "".join(self.rng.choice(a) for _ in range(n))
 
@@ -301,9 +327,15 @@ class ValueGen:
                 # the neighbourhood of the limit max(type) + offset, on both sides of max(type) - offset as well
                 k = abs(it.lenfield.offset)
                 n = r.choice([hi, hi - 1, hi - k, hi - k + 1, hi - 2 * k, hi - 2 * k + 1, hi - 2 * k - 1])
+            h = self.hint(hi, lo, cap=400)
+            if h is not None:
+                n = h
             n = max(lo, min(hi, n))
             return max(n, 1) if nonempty and hi >= 1 else n
         n = r.choice([0, 1, 2, r.randrange(4 if small else 9)])
+        h = self.hint(400, 0, cap=400)
+        if h is not None:
+            n = h
         return max(n, 1) if nonempty else n
 
     def value(self, t: Ty, it: It | None, path: str, nonempty=False):
